@@ -498,8 +498,6 @@ func runC02(t *testing.T, r *vh.Report, w c02Work) {
 			key = "gen:" + factor + ":" + symptom(base, first.Got)
 		}
 
-		ln, want, got := firstDiffLine(base.Out, first.Got.Out)
-
 		var cfgs []string
 		for _, c := range bad {
 			cfgs = append(cfgs, cfgKey(c))
@@ -508,6 +506,41 @@ func runC02(t *testing.T, r *vh.Report, w c02Work) {
 		sort.Strings(cfgs)
 
 		r.Count("mismatching-program-mode-pairs", 1)
+
+		if strings.HasPrefix(cp.Case.Key, "shadow-init:") {
+			// the failure mode is part of the key (shadowinit_test.go): every distinct
+			// mode among the mismatching rows is reported on its own
+			emitted := map[string]bool{}
+
+			for i := range ms {
+				if !ms[i].Stable {
+					continue
+				}
+
+				mk := shadowModeKey(cp.Case, base, ms[i].Got)
+				if emitted[mk] {
+					continue
+				}
+
+				emitted[mk] = true
+
+				ln, want, got := firstDiffLine(base.Out, ms[i].Got.Out)
+
+				r.Violate(vh.Violation{
+					Key: mk,
+					Desc: fmt.Sprintf("program %s, types=%s: configuration %s differs from the baseline (explained by: %s). baseline err=%q, observed err=%q panic=%q; first differing output line %d: baseline %q, observed %q",
+						k.id, k.mode, cfgKey(ms[i].Cfg), factor, base.Err, ms[i].Got.Err, ms[i].Got.Panic, ln, want, got),
+					Case:     map[string]any{"kind": "program", "id": k.id, "origin": cp.Case.Origin, "key": cp.Case.Key, "src": cp.Case.Src, "mode": k.mode, "cfg": ms[i].Cfg, "features": cp.Case.Features},
+					Expected: base.short(),
+					Observed: map[string]any{"result": ms[i].Got.short(), "differing_configurations": cfgs},
+				})
+			}
+
+			continue
+		}
+
+		ln, want, got := firstDiffLine(base.Out, first.Got.Out)
+
 		r.Violate(vh.Violation{
 			Key: key,
 			Desc: fmt.Sprintf("program %s, types=%s: %d of %d configurations differ from the baseline (explained by: %s). first: %s. baseline err=%q, observed err=%q panic=%q; first differing output line %d: baseline %q, observed %q",
